@@ -151,6 +151,9 @@ def main(argv=None):
     if replay:
         w = json.load(open(replay))
         rec = Recorder(pid, tier, w.get("seed", seed))
+        from . import monitor as _monitor
+
+        _monitor.AMBIENT["every"] = 1  # a replayed case repeats every stateless call under the other process settings
         mod.run_case(w["case"], rec)
         if rec.n_violations:
             print("replay reproduces: %d violation(s)" % rec.n_violations)
